@@ -262,7 +262,15 @@ func c08(c *Ctx) {
 		eachInstr(lh, func(in ssa.Instruction) {
 			if mu, ok := in.(*ssa.MapUpdate); ok {
 				if cl, isC := mu.Value.(*ssa.Call); isC && isCall(cl, "builtin len") && strings.HasSuffix(pathOf(cl.Call.Args[0]), ".Values") {
-					if strings.Contains(exprString(mu.Key, 0), "math.Inf") {
+					key := mu.Key
+					if ld, ok := key.(*ssa.UnOp); ok && ld.Op == token.MUL {
+						if g, ok := ld.X.(*ssa.Global); ok {
+							if v := globalInitValue(w, g); v != nil {
+								key = v
+							}
+						}
+					}
+					if strings.Contains(exprString(key, 0), "math.Inf") {
 						okInf = true
 					}
 				}
@@ -467,7 +475,7 @@ func c08(c *Ctx) {
 				r.Check(key, zero(d1) || zero(d2), ia.Pos(), "for p <= 0 the sum of the k highest is cumulative[n-1] - cumulative[n-k-1]: index is "+lf.String()+" (a clamped or shifted index sums a different number of values than the reported count)")
 			}
 		})
-		r.Check("index:sites", n >= 8, ft.Pos(), fmt.Sprintf("%d percentile index expressions", n))
+		r.Check("index:sites", n >= 6, ft.Pos(), fmt.Sprintf("%d percentile index expressions", n))
 		// mean = sum / float64(k)
 		okMean := false
 		eachInstr(ft, func(in ssa.Instruction) {
